@@ -11,7 +11,7 @@ TRUSTED = ['harness/treegen.py: the tree grammar, the speller (every free choice
            'Spec/Spell.v: the Coq twin of the grammar for the kernel sweep (independent of the parser model)',
            'the pipeline model (tied by X-doc on the generated texts); vm_compute for the sweep']
 ASSUMPTIONS = ['unbounded theorem on a fragment: one-line plain paragraphs, fenced code blocks, quotes and single-item lists (all markers, padding 1-4), any size and depth, '
-               'a list last among its siblings: the block tokenizer returns exactly the pre-token tree written from the tree (C03_fragment_parses); the fragment '
+               'two lists never adjacent siblings: the block tokenizer returns exactly the pre-token tree written from the tree (C03_fragment_parses); the fragment '
                'stream runs the same trees on the implementation',
                'PARTIAL beyond the fragment: in the kernel the HTML statement is bounded to the family stated in C03_bounded_trees; the full grammar is sampled on the implementation',
                'tables: default and left alignment are one value of the tree (the renderer writes align="left" for both); empty table bodies are not generated',
@@ -79,7 +79,9 @@ def frag_tree(rng, depth):
             return ('f', ch * rng.randint(3, 5), body)
         return ('p', ' '.join([rng.choice(FRAG_FIRST)] + [rng.choice(FRAG_WORDS) for _ in range(rng.randint(0, 4))]))
     kids = [frag_tree(rng, depth - 1) for _ in range(rng.randint(1, 3))]
-    kids = [k if (i == len(kids) - 1 or k[0] != 'i') else ('q', [k]) for i, k in enumerate(kids)]     # a list only as the last sibling
+    for i in range(1, len(kids)):                                   # two lists are never neighbours
+        if kids[i][0] == 'i' and kids[i - 1][0] == 'i':
+            kids[i] = ('q', [kids[i]])
     if r < 0.7:
         return ('q', kids)
     mk = rng.choice(['-', '+', '*', '1.', '7)', '12.', '123456789)', '0.'])
